@@ -221,7 +221,7 @@ type fnInfo struct {
 
 func newSim(p *Prog) *Sim {
 	return &Sim{p: p, Tracked: map[*types.Var]bool{}, Pinned: map[ssa.Value]bool{}, Progress: map[string]bool{},
-		MaxNodes: 400000, summaries: map[string][]Outcome{}, inProgress: map[string]bool{},
+		MaxNodes: 200000, summaries: map[string][]Outcome{}, inProgress: map[string]bool{},
 		fninfo: map[*ssa.Function]*fnInfo{}, modCache: map[*types.Var]map[*ssa.Function]bool{}, UnknownCalls: map[string]int{}}
 }
 
@@ -836,6 +836,13 @@ func (s *Sim) takeEdge(rc *runCtx, it workItem, st *State, b, succ *ssa.BasicBlo
 			if !live {
 				delete(st.cells, c)
 			}
+		}
+	}
+	// rule hooks may accumulate traces in aux: saturate them so that a loop cannot make the
+	// abstract state space unbounded
+	for k, v := range st.aux {
+		if len(v) > 600 {
+			st.aux[k] = v[:600] + "...(saturated)"
 		}
 	}
 	key := fmt.Sprintf("b%d#%s", succ.Index, st.key(fi.ids))
